@@ -25,7 +25,7 @@ ASSUMPTIONS = [
     "the first re-read l1 is the reference: precision lost by the chosen fmt in the first write is not drift",
     "inputs lasio cannot read, or whose first write() raises, are outside 'any input that lasio can read and then write' and are counted by reason",
 ]
-REQUIRED = ["histories_completed", "corpus_histories_completed", "generated_histories_completed", "mutated_histories_completed", "cycle_comparisons", "histories_with_declared_version_1.0", "histories_with_declared_version_2.1", "histories_with_declared_version_3.0", "inputs_with_wide_tables"]
+REQUIRED = ["histories_completed", "corpus_histories_completed", "generated_histories_completed", "mutated_histories_completed", "cycle_comparisons", "histories_with_declared_version_1.0", "histories_with_declared_version_2.1", "histories_with_declared_version_3.0", "inputs_with_wide_tables", "histories_by_file_name"]
 SOFT_DEADLINE = {"quick": 100, "thorough": 1500}
 LEVEL_TEXT = "Exploration of load/save histories: every cycle's result is compared with the previous one and with drift detectors."
 LEVEL_NOTE = "Trusts the canonical snapshot; inputs outside corpus/generators/mutations are not covered."
@@ -34,6 +34,58 @@ TECHNIQUE = "runtime monitoring: history checker over recorded read/write cycles
 OPTSETS = [{}, {"version": 1.2}, {"version": 2, "wrap": True}, {"fmt": "%.2f"}, {"wrap": True, "data_width": 40, "fmt": "%.3f"},
            {"mnemonics_header": True, "data_section_header": "~A"}, {"version": 1.2, "wrap": False, "len_numeric_field": -1}]
 MUTATIONS = ["none", "dup_curve", "blank_curve", "dup_param", "unit_point1in", "empty_values", "long_fields", "blank_param", "empty_step", "dup_null", "vers_1.0", "vers_2.1", "vers_3.0", "vers_1.2", "wrap_Yes", "wrap_yes", "wrap_No", "numeric_unit", "blank_param_float", "nested_bracket_units", "other_trailing_blank_lines", "date_text_curve", "no_rows"]
+
+LIT_BASE = """~Version
+VERS. 2.0 : CWLS LOG ASCII STANDARD - VERSION 2.0
+WRAP. NO  : ONE LINE PER DEPTH STEP
+~Well
+STRT.M   1.0 : START
+STOP.M   3.0 : STOP
+STEP.M   1.0 : STEP
+NULL. -999.25 : NULL VALUE
+~Curves
+{c0}
+{c1}
+{c2}
+~Params
+~Other
+~ASCII
+{data}
+"""
+
+
+def _lit(c0="DEPT.M : depth", c1="GR.API : gamma ray", c2="TXT. : remark", data="1.0 2.0 abc\n2.0 3.0 def\n3.0 4.0 ghi", **repl):
+    t = LIT_BASE.format(c0=c0, c1=c1, c2=c2, data=data)
+    for a, b in repl.get("replace", []):
+        assert a in t, a
+        t = t.replace(a, b)
+    return t
+
+
+_WIDE_C1 = "\n".join("C%d. : c%d" % (i, i) for i in range(1, 6))
+# literal files x writer options, from the refutation attempt on this property (hunts/HUNT_C11.md) and variations of them
+LITERALS = {
+    "dup_wrap_false": (_lit(replace=[("WRAP. NO  : ONE LINE PER DEPTH STEP", "WRAP. NO  : ONE LINE PER DEPTH STEP\nWRAP. NO  : ONE LINE PER DEPTH STEP")]), {"wrap": False}),
+    "dup_wrap_true": (_lit(replace=[("WRAP. NO  : ONE LINE PER DEPTH STEP", "WRAP. NO  : ONE LINE PER DEPTH STEP\nWRAP. YES : MULTIPLE")]), {"wrap": True}),
+    "dup_vers_no_rows": (_lit(data="", replace=[("VERS. 2.0 : CWLS LOG ASCII STANDARD - VERSION 2.0", "VERS. 2.0 : CWLS LOG ASCII STANDARD - VERSION 2.0\nVERS. 2.0 : again")]), {"version": 2}),
+    "wrapped_hash_sample": (_lit(c1=_WIDE_C1, c2="WHAT. : text\nTAG . : tag", data="\n".join("%d.0 1 2 3 4 5 run #%d" % (i, i) for i in (1, 2, 3))), {"wrap": True}),
+    "wrapped_tilde_sample": (_lit(c1=_WIDE_C1, c2="WHAT. : text\nTAG . : tag", data="\n".join("%d.0 1 2 3 4 5 run ~%d" % (i, i) for i in (1, 2, 3))), {"wrap": True}),
+    "wrapped_long_token": (_lit(data="1.0 2.0 http://example.org/%s\n2.0 3.0 def\n3.0 4.0 ghi" % ("x" * 70)), {"wrap": True}),
+    "wrapped_long_number": (_lit(data="1.0 1e80 5\n2.0 3.0 6\n3.0 4.0 7"), {"wrap": True}),
+    "index_mnemonic_ends_with_period": (_lit(c0="ELEV..M : elevation", c1="GAMMARAY.API : gamma ray"), {}),
+    "curve_mnemonic_ends_with_period": (_lit(c1="COND..MS/M : conductivity", c2="GAMMARAY.API : gamma ray", data="1.0 2.0 5\n2.0 3.0 6\n3.0 4.0 7"), {}),
+    "empty_null_nan_sample": (_lit(data="1.0 2.0 5\n2.0 NaN 6\n3.0 4.0 7", replace=[("NULL. -999.25 : NULL VALUE", "NULL.  : NULL VALUE")]), {}),
+    "index_last_nan": (_lit(data="1.0 2.0 5\n2.0 3.0 6\nNaN 4.0 7"), {}),
+    "index_first_nan": (_lit(data="NaN 2.0 5\n2.0 3.0 6\n3.0 4.0 7"), {}),
+    "unit_brackets_and_periods": (_lit(replace=[("NULL. -999.25 : NULL VALUE", "NULL. -999.25 : NULL VALUE\nFOO.(((m).).) 5 : odd unit")]), {}),
+    "well_value_ends_with_colon_to_1.2": (_lit(replace=[("NULL. -999.25 : NULL VALUE", "NULL. -999.25 : NULL VALUE\nRMK .M see note: : remark")]), {"version": 1.2}),
+    "index_seven_decimals_default_fmt": (_lit(data="0.1234567 2.0 5\n0.2234567 3.0 6\n0.3234567 4.0 7", replace=[("STRT.M   1.0", "STRT.M   0.1234567"), ("STOP.M   3.0", "STOP.M   0.3234567"), ("STEP.M   1.0", "STEP.M   0.1")]), {}),
+    "exponent_hyphens_then_text_hyphen": (_lit(data="1.0 2.5E-3 abc\n2.0 3.5E-3 1-5\n3.0 4.5E-3 ghi"), {}),
+    # read and written by file NAME: a non-ASCII character beyond the first 4000 bytes (and one within them)
+    "late_nonascii_by_path": (_lit(replace=[("~Other", "".join("P%03d .        %d : filler parameter number %d\n" % (i, i, i) for i in range(120)) + "BHT2 .degC   35.5 : temp 35°C\n~Other")]), {"by_path": True}),
+    "early_nonascii_by_path": (_lit(replace=[("~Other", "BHT2 .°C   35.5 : température Ågård\n~Other")]), {"by_path": True}),
+    "text_sample_with_quote_char": (_lit(data="1.0 2.0 \"O'Brien\"\n2.0 3.0 Smith\n3.0 4.0 Jones"), {}),
+}
 
 
 def corpus():
@@ -50,6 +102,8 @@ def grid(tier):
     for i, fn in enumerate(corpus()):
         if i % 3 == 0:
             yield {"input": fn, "mutation": "dup_null", "opts": 1}
+    for name in sorted(LITERALS):
+        yield {"input": "lit", "name": name, "mutation": "none", "opts": 0}
     for k in range(20):
         yield {"input": "gen", "seed": 1000 + k, "mutation": "dup_null", "opts": [1, 6][k % 2]}
     for k in range(8):
@@ -171,7 +225,10 @@ def hsnap(las):
 def run_case(case, ctx):
     lasio = ctx.lasio
     opts = dict(OPTSETS[case["opts"]])
-    kind = "generated" if case["input"] == "gen" else ("mutated" if case["mutation"] != "none" else "corpus")
+    if case["input"] == "lit":
+        opts = dict(LITERALS[case["name"]][1])
+    by_path = False
+    kind = "literal" if case["input"] == "lit" else "generated" if case["input"] == "gen" else ("mutated" if case["mutation"] != "none" else "corpus")
     try:
         if case["input"] == "gen":
             import random
@@ -182,6 +239,17 @@ def run_case(case, ctx):
                 ctx.count("inputs_with_wide_tables")
             las = lasobj.build(lasio, spec)
             las = mutate(lasio, las, case["mutation"])
+        elif case["input"] == "lit":
+            by_path = opts.pop("by_path", False)
+            if by_path:
+                os.makedirs(ctx.scratch, exist_ok=True)
+                by_path = os.path.join(ctx.scratch, "c11-%s-%%d.las" % case["name"])
+                with open(by_path % 0, "w", encoding="utf-8", newline="\n") as fh:
+                    fh.write(LITERALS[case["name"]][0])
+                las = lasio.read(by_path % 0)
+                ctx.count("histories_by_file_name")
+            else:
+                las = lasio.read(LITERALS[case["name"]][0])
         else:
             las = lasio.read(os.path.join(env.REPO, case["input"]))
             las = mutate(lasio, las, case["mutation"])
@@ -192,11 +260,14 @@ def run_case(case, ctx):
     cycles = 4 if ctx.tier == "quick" else 6
     texts, snaps = [], []
     cur = las
-    detail = {"input": case["input"], "mutation": case["mutation"], "opts": opts}
+    detail = {"input": case.get("name", case["input"]), "mutation": case["mutation"], "opts": opts}
     for n in range(cycles):
         b = io.StringIO()
         try:
-            cur.write(b, **opts)
+            if by_path:
+                cur.write(by_path % (n + 1), **opts)          # lasio opens the file itself, as it will when reading it back
+            else:
+                cur.write(b, **opts)
         except Exception as e:
             if n == 0:
                 ctx.count("skipped_first_write_raised")
@@ -207,10 +278,14 @@ def run_case(case, ctx):
                 key = "later-write-fails:text-curve-values-with-blanks-written-unquoted"
             ctx.violation(key, "write #%d raised %r" % (n + 1, e), detail)
             return
-        t = b.getvalue()
+        if by_path:
+            with open(by_path % (n + 1), "rb") as fh:
+                t = fh.read().decode("utf-8", "replace")
+        else:
+            t = b.getvalue()
         texts.append(t)
         try:
-            cur = lasio.read(t)
+            cur = lasio.read(by_path % (n + 1) if by_path else t)
         except Exception as e:
             ctx.violation(classify_reread(las, t, e), "re-reading lasio's own output (cycle %d) raised %r" % (n + 1, str(e)[:300]),
                           dict(detail, text=t[:3000]))
@@ -231,7 +306,7 @@ def run_case(case, ctx):
     if case["mutation"].startswith("vers_") and "version" not in opts:
         ctx.count("histories_with_declared_version_" + case["mutation"][5:])
     ctx.count(kind + "_histories_completed")
-    ctx.case_done([case["input"], case.get("seed"), case["mutation"], case["opts"]], nontrivial=True)
+    ctx.case_done([case.get("name", case["input"]), case.get("seed"), case["mutation"], case["opts"]], nontrivial=True)
     ctx.sample({"input": case["input"], "mutation": case["mutation"], "opts": opts, "cycles": cycles, "output_bytes": lens}, limit=4)
 
 
